@@ -226,7 +226,7 @@ func scenarios32() []schedrun.Scenario {
 			x.Go("r", func() { w.reset(); w.load(keyA) })
 			x.AtEnd(func() { w.load(keyA); w.oracle(nil) })
 		}},
-		{Name: "load-twice-vs-reset", Quick: 3, Thorough: -1, Body: func(x *sched.X) {
+		{Name: "load-twice-vs-reset", Quick: 3, Thorough: 6, Body: func(x *sched.X) {
 			w := newWorld32(x)
 			x.Go("l1", func() { w.load(keyA); w.load(keyA) })
 			x.Go("r", func() { w.reset(); w.load(keyA) })
@@ -255,14 +255,14 @@ func scenarios32() []schedrun.Scenario {
 			x.Go("r2", func() { w.reset() })
 			x.AtEnd(func() { w.oracle(nil) })
 		}},
-		{Name: "no-reset-single-fetch", Quick: 3, Thorough: -1, Body: func(x *sched.X) {
+		{Name: "no-reset-single-fetch", Quick: 3, Thorough: 4, Body: func(x *sched.X) {
 			w := newWorld32(x)
 			x.Go("l1", func() { w.load(keyA); w.load(keyA) })
 			x.Go("l2", func() { w.load(keyA) })
 			x.Go("l3", func() { w.load(keyA2) })
 			x.AtEnd(func() { w.load(keyA); w.oracle(map[pingKey]int{keyA: 1, keyA2: 1}) })
 		}},
-		{Name: "ttl-expiry", Quick: 3, Thorough: -1, Body: func(x *sched.X) {
+		{Name: "ttl-expiry", Quick: 3, Thorough: 6, Body: func(x *sched.X) {
 			w := newWorld32(x)
 			x.Go("l1", func() { w.load(keyA); w.load(keyA) })
 			x.Go("clock", func() { w.jump(); w.load(keyA) })
